@@ -3309,6 +3309,7 @@ impl VectorEngine {
         }
 
         self.store.put(storage_key, tensor)?;
+        self.invalidate_hnsw_cache("_default");
         Ok(())
     }
 
